@@ -70,6 +70,8 @@ func init() {
 type world struct {
 	tune     int  // option changes an event of the history may still make
 	retuned  bool // reconnect options were changed after Dial
+	mins     []time.Duration // every ReconnectTime value that was ever in force
+	lostAttached bool       // the redial that is owed follows the loss of a connection that had attached
 	minEver  time.Duration // smallest ReconnectTime ever in force
 	maxEver  time.Duration // largest delay any setting ever allowed (0: some setting had no limit on growth... see below)
 	c        cfg
@@ -149,6 +151,19 @@ func (w *world) noteDials() {
 				if gap > w.maxEver {
 					kit.Failf("redial-beyond-max", "attempt %d came %v after the previous failure; no setting allowed more than %v", w.ndials, gap, w.maxEver)
 				}
+				if w.lostAttached {
+					// "returns to the initial value after a successful attach": the first redial after the
+					// loss of a connection that had attached waits a reconnect time (one of the values
+					// that were in force), not a delay grown by earlier failures
+					isMin := false
+					for _, v := range w.mins {
+						isMin = isMin || v == gap
+					}
+					if !isMin {
+						kit.Failf("delay-not-reset-after-attach", "attempt %d came %v after the loss of a connection that had attached; ReconnectTime was only ever one of %v: the delay grown by earlier failures was not reset by the attach", w.ndials, gap, w.mins)
+					}
+					kit.Count("first-redial-after-an-attached-connection-waits-the-reconnect-time")
+				}
 				ok = true
 			} else if gap < w.c.min {
 				kit.Failf("redial-too-soon", "attempt %d at %v only %v after the previous failure/loss at %v; ReconnectTime is %v", w.ndials, r.At, gap, w.lastEnd, w.c.min)
@@ -168,6 +183,7 @@ func (w *world) noteDials() {
 			}
 		}
 		w.waiting = false
+		w.lostAttached = false
 		switch r.Outcome {
 		case vt.DialRefused, vt.DialHandshake:
 			w.lastEnd = r.At
@@ -313,6 +329,7 @@ func histTune(depth int, viaDialer bool, tune int) {
 				w.attached.DropNow()
 				w.lastEnd = kit.Now()
 				w.waiting = true
+				w.lostAttached = true
 				w.lastWasFailure = false
 				w.gapset = w.curset
 				kit.Count("redial-after-loss")
@@ -351,6 +368,7 @@ func histTune(depth int, viaDialer bool, tune int) {
 						if !w.retuned {
 							w.retuned = true
 							w.minEver = w.c.min
+							w.mins = []time.Duration{w.c.min}
 							w.maxEver = w.c.max
 							if w.c.max == 0 || w.c.max < w.c.min {
 								w.maxEver = w.c.min // no growth: the delay stays the reconnect time
@@ -371,6 +389,7 @@ func histTune(depth int, viaDialer bool, tune int) {
 							kit.Failf("option-not-passed-on", "dialer reports %s = %v (%s) after %v was set (on the socket: %v)", c.opt, g, kit.ErrName(err), c.v, onSock)
 						}
 						if c.opt == mangos.OptionReconnectTime {
+							w.mins = append(w.mins, c.v)
 							if c.v < w.minEver {
 								w.minEver = c.v
 							}
